@@ -9,43 +9,282 @@ Definition kernel_ok (w : vec) : Prop :=
   Nat.odd (length w) = true /\ (forall x, In x w -> (0 <= x)%Qc) /\ qsum w = 1%Qc /\
   (forall k, k < length w -> nth k w 0%Qc = nth (length w - 1 - k) w 0%Qc).
 
+(* ---- helpers ---- *)
+Definition gterm (w xs : vec) (i k : nat) : Qc :=
+  (nth k w 0 * clamp_get xs (Z.of_nat i + Z.of_nat k - Z.of_nat ((length w - 1) / 2)))%Qc.
+
+Lemma gfilt_nth w xs i : i < length xs ->
+  nth i (gfilt w xs) 0%Qc = qsum (map (gterm w xs i) (seq 0 (length w))).
+Proof.
+  intros Hi. unfold gfilt. rewrite nth_map_seq by exact Hi. reflexivity.
+Qed.
+
+Lemma qsum_lin {A} (a b : Qc) (f g : A -> Qc) l :
+  qsum (map (fun k => (a * f k + b * g k)%Qc) l) = (a * qsum (map f l) + b * qsum (map g l))%Qc.
+Proof.
+  induction l as [|x l IH]; cbn [map].
+  - rewrite !qsum_nil. ring.
+  - rewrite !qsum_cons, IH. ring.
+Qed.
+
+Lemma qsum_rev_index (f : nat -> Qc) m :
+  qsum (map f (seq 0 m)) = qsum (map (fun k => f (m - 1 - k)) (seq 0 m)).
+Proof.
+  induction m as [|m IH]; [reflexivity|].
+  rewrite seq_S at 1. rewrite map_app, qsum_app. cbn [Nat.add map]. rewrite qsum_cons, qsum_nil.
+  cbn [seq map]. rewrite qsum_cons.
+  rewrite <- seq_shift, map_map.
+  replace (S m - 1 - 0) with m by lia.
+  rewrite IH.
+  rewrite (qsum_map_ext (fun k => f (S m - 1 - S k)) (fun k => f (m - 1 - k))).
+  - ring.
+  - intros k _. f_equal. lia.
+Qed.
+
+Lemma clamp_idx_lt n j : 0 < n ->
+  Z.to_nat (Z.max 0 (Z.min (Z.of_nat n - 1) j)) < n.
+Proof. intros Hn. lia. Qed.
+
+Lemma nth_lin (a b : Qc) xs ys m : length xs = length ys ->
+  nth m (map (fun p => (a * fst p + b * snd p)%Qc) (combine xs ys)) 0%Qc
+  = (a * nth m xs 0 + b * nth m ys 0)%Qc.
+Proof.
+  intros Hl. destruct (lt_dec m (length xs)) as [Hm|Hm].
+  - rewrite (nth_map_lt _ _ _ _ (0%Qc, 0%Qc)) by (rewrite combine_length; lia).
+    rewrite combine_nth by exact Hl. cbn [fst snd]. reflexivity.
+  - rewrite !nth_overflow; [ring|lia|lia|rewrite map_length, combine_length; lia].
+Qed.
+
+Lemma lin_length (a b : Qc) xs ys : length xs = length ys ->
+  length (map (fun p => (a * fst p + b * snd p)%Qc) (combine xs ys)) = length xs.
+Proof. intros Hl. rewrite map_length, combine_length. lia. Qed.
+
 (* PRIORITY 1 *)
 Lemma gfilt_length w xs : length (gfilt w xs) = length xs.
-Proof. TODO. Qed.
+Proof. unfold gfilt. rewrite map_length, seq_length. reflexivity. Qed.
 
 (* PRIORITY 2: linear (for any kernel) *)
 Lemma gfilt_linear w xs ys a b : length xs = length ys ->
   gfilt w (map (fun p => (a * fst p + b * snd p)%Qc) (combine xs ys))
   = map (fun p => (a * fst p + b * snd p)%Qc) (combine (gfilt w xs) (gfilt w ys)).
-Proof. TODO. Qed.
+Proof.
+  intros Hl.
+  apply (nth_ext _ _ 0%Qc 0%Qc).
+  - rewrite gfilt_length, !lin_length; rewrite ?gfilt_length; auto.
+  - intros i Hi. rewrite gfilt_length, lin_length in Hi by exact Hl.
+    rewrite nth_lin by (rewrite !gfilt_length; exact Hl).
+    rewrite !gfilt_nth; [|lia|exact Hi|rewrite lin_length; auto].
+    rewrite <- qsum_lin. apply qsum_map_ext. intros k _.
+    unfold gterm, clamp_get. rewrite lin_length by exact Hl.
+    rewrite nth_lin by exact Hl. rewrite <- Hl. ring.
+Qed.
+
+
+Lemma qsum_kernel w : qsum (map (fun k => nth k w 0%Qc) (seq 0 (length w))) = qsum w.
+Proof. symmetry. apply qsum_nth_seq. reflexivity. Qed.
+
+Lemma clamp_get_repeat c n j : 0 < n -> clamp_get (repeat c n) j = c.
+Proof.
+  intros Hn. unfold clamp_get. rewrite repeat_length.
+  rewrite (nth_indep _ 0%Qc c) by (rewrite repeat_length; apply clamp_idx_lt; exact Hn).
+  apply nth_repeat.
+Qed.
 
 (* PRIORITY 3: a constant series is mapped to itself *)
 Lemma gfilt_const w c n : qsum w = 1%Qc -> gfilt w (repeat c n) = repeat c n.
-Proof. TODO. Qed.
+Proof.
+  intros Hw.
+  apply (nth_ext _ _ 0%Qc 0%Qc).
+  - apply gfilt_length.
+  - intros i Hi. rewrite gfilt_length, repeat_length in Hi.
+    rewrite gfilt_nth by (rewrite repeat_length; exact Hi).
+    rewrite (qsum_map_ext _ (fun k => (nth k w 0 * c)%Qc)).
+    + rewrite (qsum_map_scale_r c (fun k => nth k w 0%Qc)), qsum_kernel, Hw.
+      rewrite (nth_indep _ 0%Qc c) by (rewrite repeat_length; exact Hi).
+      rewrite nth_repeat. ring.
+    + intros k _. unfold gterm. rewrite clamp_get_repeat by lia. reflexivity.
+Qed.
+
+Lemma clamp_get_In xs j : xs <> [] -> In (clamp_get xs j) xs.
+Proof.
+  intros Hne. unfold clamp_get. apply nth_In. apply clamp_idx_lt.
+  destruct xs; [congruence|cbn [length]; lia].
+Qed.
+
+Lemma qsum_weighted_le (f g h : nat -> Qc) l :
+  (forall k, In k l -> (0 <= f k)%Qc) -> (forall k, In k l -> (g k <= h k)%Qc) ->
+  (qsum (map (fun k => (f k * g k)%Qc) l) <= qsum (map (fun k => (f k * h k)%Qc) l))%Qc.
+Proof.
+  induction l as [|x l IH]; intros Hf Hg; cbn [map].
+  - rewrite qsum_nil. apply Qcle_refl.
+  - rewrite !qsum_cons. apply Qcplus_le_compat.
+    + rewrite (Qcmult_comm (f x) (g x)), (Qcmult_comm (f x) (h x)).
+      apply Qcmult_le_compat_r; [apply Hg|apply Hf]; left; reflexivity.
+    + apply IH; intros k Hk; [apply Hf|apply Hg]; right; exact Hk.
+Qed.
 
 (* PRIORITY 4: every value stays between bounds of the series *)
 Lemma gfilt_bounds w xs lo hi : (forall x, In x w -> (0 <= x)%Qc) -> qsum w = 1%Qc ->
   (forall x, In x xs -> (lo <= x)%Qc /\ (x <= hi)%Qc) ->
   forall y, In y (gfilt w xs) -> (lo <= y)%Qc /\ (y <= hi)%Qc.
-Proof. TODO. Qed.
+Proof.
+  intros Hpos Hsum Hb y Hy.
+  unfold gfilt in Hy. apply in_map_iff in Hy. destruct Hy as [i [Hy Hi]].
+  apply in_seq in Hi.
+  assert (Hne : xs <> []) by (destruct xs; [cbn [length] in Hi; lia|congruence]).
+  assert (Hw : forall k, In k (seq 0 (length w)) -> (0 <= nth k w 0)%Qc).
+  { intros k Hk. apply in_seq in Hk. apply Hpos. apply nth_In. lia. }
+  set (r := Z.of_nat ((length w - 1) / 2)) in Hy.
+  set (g := fun k => clamp_get xs (Z.of_nat i + Z.of_nat k - r)) in *.
+  assert (Elo : lo = qsum (map (fun k => (nth k w 0 * lo)%Qc) (seq 0 (length w)))).
+  { rewrite (qsum_map_scale_r lo (fun k => nth k w 0%Qc)), qsum_kernel, Hsum. ring. }
+  assert (Ehi : hi = qsum (map (fun k => (nth k w 0 * hi)%Qc) (seq 0 (length w)))).
+  { rewrite (qsum_map_scale_r hi (fun k => nth k w 0%Qc)), qsum_kernel, Hsum. ring. }
+  subst y. split.
+  - rewrite Elo at 1.
+    apply (qsum_weighted_le (fun k => nth k w 0%Qc) (fun _ => lo) g); [exact Hw|].
+    intros k _. apply Hb. apply clamp_get_In. exact Hne.
+  - rewrite Ehi at 1.
+    apply (qsum_weighted_le (fun k => nth k w 0%Qc) g (fun _ => hi)); [exact Hw|].
+    intros k _. apply Hb. apply clamp_get_In. exact Hne.
+Qed.
+
+Lemma clamp_get_rev xs j :
+  clamp_get (rev xs) j = clamp_get xs (Z.of_nat (length xs) - 1 - j).
+Proof.
+  unfold clamp_get. rewrite rev_length.
+  destruct (Nat.eq_dec (length xs) 0) as [H0|H0].
+  - destruct xs; [|discriminate]. cbn [rev length].
+    destruct (Z.to_nat _), (Z.to_nat _); reflexivity.
+  - rewrite rev_nth by (apply clamp_idx_lt; lia).
+    f_equal. lia.
+Qed.
+
+Lemma odd_half m : Nat.odd m = true -> m = 2 * ((m - 1) / 2) + 1.
+Proof.
+  intros Ho. apply Nat.odd_spec in Ho. destruct Ho as [q Hq].
+  replace (m - 1) with (q * 2) by lia. rewrite Nat.div_mul by lia. lia.
+Qed.
 
 (* PRIORITY 5: commutes with time reversal (symmetric kernel) *)
 Lemma gfilt_reverse w xs : kernel_ok w -> gfilt w (rev xs) = rev (gfilt w xs).
-Proof. TODO. Qed.
+Proof.
+  intros [Hodd [_ [_ Hsym]]].
+  apply (nth_ext _ _ 0%Qc 0%Qc).
+  - rewrite rev_length, !gfilt_length, rev_length. reflexivity.
+  - intros i Hi. rewrite gfilt_length, rev_length in Hi.
+    rewrite rev_nth by (rewrite gfilt_length; exact Hi).
+    rewrite gfilt_length.
+    rewrite !gfilt_nth; [|lia|rewrite rev_length; exact Hi].
+    rewrite (qsum_rev_index (gterm w xs (length xs - S i))).
+    apply qsum_map_ext. intros k Hk. apply in_seq in Hk.
+    unfold gterm. rewrite clamp_get_rev.
+    rewrite <- (Hsym k) by lia.
+    pose proof (odd_half _ Hodd) as Hm.
+    f_equal. f_equal. lia.
+Qed.
 
 (* PRIORITY 6: running mean = the documented centred window with zeros outside; w = 1 is the identity *)
 Lemma runningmean_length xs w : length (runningmean xs w) = length xs.
-Proof. TODO. Qed.
+Proof. unfold runningmean. rewrite map_length, seq_length. reflexivity. Qed.
+
 Lemma runningmean_window xs w i : 1 <= w -> i < length xs ->
   nth i (runningmean xs w) 0%Qc = window_mean xs w i.
-Proof. TODO. Qed.
-Lemma runningmean_w1 xs : runningmean xs 1 = xs.
-Proof. TODO. Qed.
+Proof.
+  intros Hw Hi. unfold runningmean, window_mean.
+  rewrite nth_map_seq by exact Hi.
+  f_equal.
+  rewrite (qsum_rev_index _ w).
+  apply qsum_map_ext. intros k Hk. apply in_seq in Hk.
+  f_equal.
+  assert (Hh : (w - 1) / 2 <= w - 1) by (apply Nat.div_le_upper_bound; lia).
+  lia.
+Qed.
 
-(* PRIORITY 7 (C19): the chunks partition the list: concatenation gives the list back, every
-   chunk is non-empty and has at most chunk elements *)
+Lemma Qc_of_Z_1 : Qc_of_Z 1 = 1%Qc.
+Proof. apply Qc_is_canon. reflexivity. Qed.
+
+Lemma runningmean_w1 xs : runningmean xs 1 = xs.
+Proof.
+  apply (nth_ext _ _ 0%Qc 0%Qc).
+  - apply runningmean_length.
+  - intros i Hi. rewrite runningmean_length in Hi.
+    unfold runningmean. rewrite nth_map_seq by exact Hi.
+    cbn [seq map]. rewrite qsum_cons, qsum_nil.
+    change (Z.of_nat 1) with 1%Z. rewrite Qc_of_Z_1.
+    change ((1 - 1) / 2) with 0.
+    unfold zget.
+    replace (Z.of_nat i + Z.of_nat 0 - Z.of_nat 0)%Z with (Z.of_nat i) by lia.
+    destruct (Z.ltb_spec (Z.of_nat i) 0) as [H1|H1]; [lia|].
+    destruct (Z.leb_spec (Z.of_nat (length xs)) (Z.of_nat i)) as [H2|H2]; [lia|].
+    cbn [orb]. rewrite Nat2Z.id. field. discriminate.
+Qed.
+
+(* ---- chunking helpers ---- *)
+Lemma list_sum_repeat c k : list_sum (repeat c k) = k * c.
+Proof.
+  induction k as [|k IH]; [reflexivity|]. cbn [repeat].
+  change (list_sum (c :: repeat c k)) with (c + list_sum (repeat c k)). rewrite IH. lia.
+Qed.
+
+Lemma split_lens_concat_prefix {A} (lens : list nat) (l : list A) :
+  list_sum lens <= length l -> concat (split_lens lens l) = firstn (list_sum lens) l.
+Proof.
+  revert l; induction lens as [|n ns IH]; intros l H; cbn [split_lens concat];
+    try change (list_sum (n :: ns)) with (n + list_sum ns) in *.
+  - reflexivity.
+  - rewrite IH by (rewrite skipn_length; lia).
+    rewrite <- (firstn_skipn n l) at 3.
+    rewrite firstn_app, firstn_length, firstn_firstn.
+    replace (Nat.min (n + list_sum ns) n) with n by lia.
+    replace (n + list_sum ns - Nat.min n (length l)) with (list_sum ns) by lia.
+    reflexivity.
+Qed.
+
+Lemma split_lens_lengths_prefix {A} (lens : list nat) (l : list A) :
+  list_sum lens <= length l -> map (@length A) (split_lens lens l) = lens.
+Proof.
+  revert l; induction lens as [|n ns IH]; intros l H; cbn [split_lens map]; [reflexivity|].
+  change (list_sum (n :: ns)) with (n + list_sum ns) in *.
+  rewrite firstn_length, IH by (rewrite skipn_length; lia). f_equal. lia.
+Qed.
+
+Lemma chunks_fit {A} (l : list A) chunk : 1 <= chunk -> length l / chunk * chunk <= length l.
+Proof. intros Hc. rewrite Nat.mul_comm. apply Nat.mul_div_le. lia. Qed.
+
+Lemma last_snoc {A} (l : list A) x d : last (l ++ [x]) d = x.
+Proof. apply last_last. Qed.
+
+(* PRIORITY 7 (C19) *)
 Lemma split_array_concat {A} (l : list A) chunk : 1 <= chunk -> concat (split_array l chunk) = l.
-Proof. TODO. Qed.
+Proof.
+  intros Hc. unfold split_array.
+  pose proof (chunks_fit l chunk Hc) as Hfit.
+  set (k := length l / chunk) in *.
+  rewrite last_snoc, removelast_last.
+  assert (Hp : concat (split_lens (repeat chunk k) l) = firstn (k * chunk) l).
+  { rewrite split_lens_concat_prefix; rewrite list_sum_repeat; [reflexivity|exact Hfit]. }
+  destruct (Nat.eqb_spec (length (skipn (k * chunk) l)) 0) as [He|He].
+  - rewrite Hp. rewrite skipn_length in He. apply firstn_all2. lia.
+  - rewrite concat_app, Hp. cbn [concat]. rewrite app_nil_r. apply firstn_skipn.
+Qed.
+
 Lemma split_array_sizes {A} (l : list A) chunk c : 1 <= chunk -> In c (split_array l chunk) ->
   1 <= length c /\ length c <= chunk.
-Proof. TODO. Qed.
+Proof.
+  intros Hc Hin. unfold split_array in Hin.
+  pose proof (chunks_fit l chunk Hc) as Hfit.
+  pose proof (Nat.div_mod (length l) chunk ltac:(lia)) as Hdm.
+  pose proof (Nat.mod_upper_bound (length l) chunk ltac:(lia)) as Hmod.
+  set (k := length l / chunk) in *.
+  rewrite last_snoc, removelast_last in Hin.
+  assert (Hfull : forall c', In c' (split_lens (repeat chunk k) l) -> length c' = chunk).
+  { intros c' Hc'. apply (in_map (@length A)) in Hc'.
+    rewrite split_lens_lengths_prefix in Hc' by (rewrite list_sum_repeat; exact Hfit).
+    apply repeat_spec in Hc'. exact Hc'. }
+  destruct (Nat.eqb_spec (length (skipn (k * chunk) l)) 0) as [He|He].
+  - rewrite (Hfull c Hin). lia.
+  - apply in_app_or in Hin. destruct Hin as [Hin|[Hin|[]]].
+    + rewrite (Hfull c Hin). lia.
+    + subst c. rewrite skipn_length in *. split; [lia|]. nia.
+Qed.
